@@ -36,7 +36,7 @@ PROFILE = gen.profile(
     p_reuse=0.2,
     max_nodes=12,
     kinds=1,
-    exc_cls=["exc", "exc", "falsy", "frozen", "tasky", "cached"],
+    exc_cls=["exc", "exc", "falsy", "frozen", "tasky", "cached", "typed"],
     try_kinds=["exc", "exc", "none"],
     w_stmt=dict(sync=0, raise_=0.5, try_=2.0, with_=0, ret=0.3, orphan=0, read=0, probe=0.5),
     w_leaf=dict(call=8, item=0, const=2.5, none=1.2, err=0, lazy=0, again=0, junk=0, dbg=0, constexc=1.0),
